@@ -1,31 +1,46 @@
-import Iavl.Model.ChangeSet
+import Iavl.Lemmas.ChangeSetCorrect
 /-
-  C15 — extracted change sets. `changeSet` is the executable specification ("new leaves of the
-  version merged in key order with the leaves of the predecessor that are gone") the implementation's
-  `TraverseStateChanges` is compared with on every history. Proved so far: the merge emits every new
-  leaf as a set and every orphaned key not re-set as a deletion, in one pass (structural facts);
-  `apply (changeSet …) (contents (v-1)) = contents v` is still a goal (see Goals).
+  C15 — extracted change sets equal the net writes of each version. `changeSet` is the executable
+  specification the implementation's `TraverseStateChanges` is compared with on every history: the
+  new leaves of the version (node version greater than the predecessor's) merged in ascending key
+  order with the leaves of the predecessor that are gone, a key in both giving one `set`.
 -/
 namespace Iavl.Props.C15
 open Iavl Std
-variable {K V : Type} [Ord K]
+set_option linter.unusedSectionVars false
+variable {K V : Type} [Ord K] [TransOrd K] [LawfulEqOrd K] [DecidableEq K] [DecidableEq V]
 
-/-- without orphans the change set is exactly the new leaves, in order -/
-theorem only_sets (ns : List (K × V)) : mergeChanges ns [] = ns.map (fun p => Change.set p.1 p.2) := by
-  cases ns <;> simp [mergeChanges]
+/-- **Applying the change set of a version to the contents of its predecessor gives the contents of
+    the version** — for all ordered trees under the sharing invariant of path-copying writes (every
+    leaf of the version persisted at or before the predecessor is a leaf of the predecessor;
+    `set_shares` / `remove_shares` in Lemmas/Sharing establish it for each write). Covers repeated
+    writes of a key inside a version, set-then-remove, remove-then-set, rewrites of identical values
+    (the rewritten leaf is new, so it is listed), no-op and empty versions. -/
+theorem apply_changeset (prevVersion : Nat) (prev cur : OTree K V)
+    (hp : match prev with | none => True | some t => Ordered t)
+    (hc : match cur with | none => True | some t => Ordered t)
+    (hshare : ∀ x ∈ leavesO cur, (∃ u, x.2.2 = some u ∧ u ≤ prevVersion) → x ∈ leavesO prev) :
+    applyChanges (contents prev) (changeSet prevVersion prev cur) = contents cur :=
+  apply_changeSet prevVersion prev cur hp hc hshare
 
-/-- without new leaves it is exactly the deletions, in order -/
-theorem only_deletes (ds : List K) : mergeChanges ([] : List (K × V)) ds = ds.map Change.del := by
-  cases ds <;> simp [mergeChanges]
+/-- the effect of a change set on any sorted map, key by key: a listed `set` wins, a listed deletion
+    removes, every other key is untouched — and the result is sorted (each key once, ascending) -/
+theorem changeset_effect (ns : List (K × V)) (ds : List K) (m : List (K × V))
+    (hm : SortedKV m) (hn : SortedKV ns) (hd : SortedKeys ds) (k : K) :
+    SortedKV (applyChanges m (mergeChanges ns ds)) ∧
+    lookup k (applyChanges m (mergeChanges ns ds)) =
+      if (lookup k ns).isSome then lookup k ns else if k ∈ ds then none else lookup k m :=
+  lookup_applyChanges_merge ns ds m hm hn hd k
 
-/-- the length never exceeds news + orphans and is at least the number of new leaves -/
-theorem size_bounds (ns : List (K × V)) (ds : List K) :
-    ns.length ≤ (mergeChanges ns ds).length ∧ (mergeChanges ns ds).length ≤ ns.length + ds.length := by
-  induction ns, ds using mergeChanges.induct with
-  | case1 ds => simp [mergeChanges]
-  | case2 ns hne => cases ns <;> simp [mergeChanges]
-  | case3 k v ns d ds hlt ih => simp only [mergeChanges, hlt, List.length_cons] at ih ⊢; omega
-  | case4 k v ns d ds heq ih => simp only [mergeChanges, heq, List.length_cons] at ih ⊢; omega
-  | case5 k v ns d ds hgt ih => simp only [mergeChanges, hgt, List.length_cons] at ih ⊢; omega
+/-- non-vacuity: version 2 adds key 2 next to the shared leaf of key 1 — the sharing hypothesis of
+    `apply_changeset` holds for these trees -/
+example : ∀ x ∈ leavesO (some (.inner 2 1 2 (some 2) (.leaf 1 10 (some 1)) (.leaf 2 20 (some 2))) : OTree Nat Nat),
+    (∃ u, x.2.2 = some u ∧ u ≤ 1) → x ∈ leavesO (some (.leaf 1 10 (some 1)) : OTree Nat Nat) := by
+  intro x hx hu
+  simp only [leavesO, Node.leaves, List.cons_append, List.nil_append, List.mem_cons, List.not_mem_nil, or_false] at hx ⊢
+  rcases hx with rfl | rfl
+  · rfl
+  · obtain ⟨u, h1, h2⟩ := hu
+    simp at h1; omega
 
 end Iavl.Props.C15
